@@ -19,7 +19,10 @@ META = {
              'the direct oracles.'),
     'design_ref': 'DESIGN.md section 4 / C05',
     'note': ('Partial: the cache_write_seq read-cache protocol (C05.5) is exercised by the cache-enabled runs but not modelled; '
-             'extension writers are not in the model. The sequential specification lets add return any id never handed out '
+             'extension writers and overlapping reads are not in the model; what a flush persists is recorded by the model '
+             '(snapshot at its linearization point, mutations excluded while it holds the gate) but its content is not checked '
+             'against ids.cbor (C01). A flush that finds nothing dirty returns without touching ids.cbor: the replay takes its '
+             'persist step unobserved. The sequential specification lets add return any id never handed out '
              'before (the property asks for distinct ids; with a strict counter the implementation is not linearizable, see '
              'the report). 128 lock stripes are modelled as one lock per id. Interleavings are at backend-call granularity; '
              'atomics\' memory orders and scheduler fairness are out of scope. Trusted: Coq kernel + vm_compute, the harness '
@@ -47,8 +50,8 @@ def run(ck):
     if not binary:
         return ck.finish()
     out = ck.work + '/c05.jsonl'
-    args = ['c05', '--out', out] + (['--schedules', '60', '--triples', '40', '--quads', '10', '--mt', '120', '--model-every', '4'] if quick
-                                    else ['--schedules', '1500', '--triples', '400', '--quads', '300', '--mt', '1500', '--model-every', '40'])
+    args = ['c05', '--out', out] + (['--schedules', '60', '--triples', '40', '--quads', '10', '--mt', '120', '--model-every', '8'] if quick
+                                    else ['--schedules', '600', '--triples', '200', '--quads', '100', '--mt', '600', '--model-every', '25'])
     rc, text = ck.run_harness(binary, args, timeout=2400)
     if not ck.ob('harness c05 ran', rc == 0 and os.path.exists(out), 'monitor', text[-2500:]):
         return ck.finish()
@@ -66,7 +69,7 @@ def run(ck):
           '(%d runs)' % summary['evaluations'], summary['oracle_failures'] == 0, 'monitor', json.dumps(summary['failures'][:3])[:3000])
     for fn, ty in (('check_admits', 'admits_case'), ('check_lin', 'lin_case')):
         sub = [r for r in cases if r['fn'] == fn]
-        res = ck.eval_cases(IMPORTS, ty, fn, [r['case'] for r in sub], label=fn, shard=120, timeout=1500)
+        res = ck.eval_cases(IMPORTS, ty, fn, [r['case'] for r in sub], label=fn, shard=64, timeout=1500)
         bad = [i for i, r in enumerate(res) if r is not True]
         for r in sub:
             ck.nontrivial((fn, json.dumps(r['input'].get('ops')), json.dumps(r['input'].get('schedule', r['input'].get('returns')))))
